@@ -1,0 +1,6 @@
+//go:build !verif
+
+package gogen
+
+// verifTrace is the tracing hook of the verification harness; without the build tag `verif` it does nothing.
+func verifTrace(cb *CodeBuilder, ev string) {}
